@@ -36,3 +36,21 @@ BENIGN = [
     dict(property='C01', name='checkEquation: docstring-level edit and an unused local', file='pygom/model/_model_verification.py',
          old="    list_out = list()\n", new="    n_parsed = 0\n    list_out = list()\n"),
 ]
+LT = 'pygom/loss/loss_type.py'
+BENIGN += [
+    dict(property='C04', name='firstReaction: counts as an integer array instead of a list', file=S, old="    jumps=[0]*len(rates)\n    jumps[min_index]=1\n",
+         new="    jumps=np.zeros(len(rates), int)\n    jumps[min_index]=1\n"),
+    dict(property='C04', name='_updateStateWithJump: factors swapped', file=S, old="    return x + state_change_mat[:, transition_index]*n", new="    return x + n*state_change_mat[:, transition_index]"),
+    dict(property='C14', name='Square.loss: np.sum of the squared residual', file=LT, old="        return (self.residual(yhat, apply_weighting)**2).sum()",
+         new="        r = self.residual(yhat, apply_weighting)\n        return np.sum(r*r)"),
+    dict(property='C11', name='_checkJump: early exit once a limit is broken', file=S, old="            else:\n                if x_new[i]<x_min or x_new[i]>x_max:\n                    failed_jump=True\n",
+         new="            else:\n                if x_new[i]<x_min or x_new[i]>x_max:\n                    failed_jump=True\n                    break\n"),
+    dict(property='C10', name='get_StateChangeMatrix: index lookups hoisted', file=B,
+         old="                    origin_index=self.state_list.index(transition.origin)\n                    destination_index=self.state_list.index(transition.destination)\n                    self._vMat[origin_index, event_index] -= magnitude",
+         new="                    origin_index, destination_index = self.state_list.index(transition.origin), self.state_list.index(transition.destination)\n                    self._vMat[origin_index, event_index] -= magnitude"),
+    dict(property='C16', name='simulate_param: mean over a stacked array built with np.array', file=SIM, old="        Y = np.dstack(solutionList).mean(axis=2)\n\n        if full_output:\n            return Y, solutionList",
+         new="        Y = np.array(solutionList).mean(axis=0)\n\n        if full_output:\n            return Y, solutionList"),
+    dict(property='C09', name='parameters setter: enumerate instead of range(len())', file=B,
+         old="                        for i in range(0, len(parameters)):\n                            index_temp = f(parameters[i][0])\n                            value_temp = parameters[i][1]\n                            param_out[index_temp] = value_temp",
+         new="                        for name_temp, value_temp in parameters:\n                            param_out[f(name_temp)] = value_temp"),
+]
